@@ -106,10 +106,24 @@ def check_sorted(where, desc, got, keys, docs_by_uid, schema):
     return len(have)
 
 
+_NODEFAULT = object()
+
+
+def model_eq_default(v, dflt):
+    try:
+        if isinstance(v, bytes) and not isinstance(dflt, bytes) and dflt is not None:
+            return v == (dflt.encode("utf-8") if isinstance(dflt, str) else dflt)
+        return v == dflt
+    except Exception:  # noqa
+        return False
+
+
 def check_views(s, ix, record, counters):
     from whoosh import sorting
+    from whoosim.session import defaults_for
     mi = s.model
     docs = mi.docs
+    defaults = dict((f, v[1]) for f, v in defaults_for(mi.schema).items() if v[0] == "ok")
     by_uid = dict((d.uid, d) for d in docs)
     where = "final state"
     with ix.searcher() as srch:
@@ -182,6 +196,43 @@ def check_views(s, ix, record, counters):
                 if lim is not None and lim != got[:3]:
                     raise Violation("sorted_limit_is_prefix", "%s: %s with limit=3 returned %s, the full sorted result starts %s"
                                     % (where, sdesc, lim, got[:3]), sig="sorted_limit:" + keys[0][0])
+                if len(keys) == 1:
+                    f, rev = keys[0]
+                    # documents without a value for the key sort as one block at one end of the result
+                    # (wherever that is), whatever segment they live in; documents whose value equals
+                    # the column default may mingle with them
+                    dflt = defaults.get(f, _NODEFAULT)
+                    kinds = []
+                    for u, _ in got:
+                        v = sort_value(by_uid[u], f, mi.schema)
+                        if v is None:
+                            kinds.append("N")
+                        elif dflt is not _NODEFAULT and model_eq_default(v, dflt):
+                            continue
+                        else:
+                            kinds.append("V")
+                    squeezed = [k_ for i, k_ in enumerate(kinds) if i == 0 or kinds[i - 1] != k_]
+                    if len(squeezed) > 2:
+                        raise Violation("sorted_order_exact", "%s: %s: documents without a value are scattered through the result (N = no value, V = value): %s"
+                                        % (where, sdesc, "".join(kinds)), sig="sorted_missing_values_scattered:" + f + ("-" if rev else ""))
+                    if not rev:
+                        # search-level reverse=True: the tie rule is its own, but a limited search is
+                        # still the prefix of the unlimited one and pages still tile it
+                        fullr = pairs(run(q, limit=None, sortedby=f, reverse=True))
+                        limr = pairs(run(q, limit=3, sortedby=f, reverse=True))
+                        if limr != fullr[:3]:
+                            raise Violation("sorted_limit_is_prefix", "%s: %s sorted by %s, reverse=True, limit=3 returned %s, the unlimited result starts %s"
+                                            % (where, desc, f, limr, fullr[:3]), sig="sorted_limit_reverse:" + f)
+                        try:
+                            p2 = [(h["u"], h.docnum) for h in srch.search_page(q, 2, pagelen=2, sortedby=f, reverse=True)] if len(fullr) > 2 else None
+                        except (SimAbort, SimKilled, HarnessError):
+                            raise
+                        except Exception as e:  # noqa
+                            raise Violation("search_raised", "%s: search_page(%s, 2, pagelen=2, sortedby=%s, reverse=True) raised %s: %s" % (where, desc, f, type(e).__name__, e),
+                                            sig="search_page_raised:" + exc_sig(e))
+                        if p2 is not None and p2 != fullr[2:4]:
+                            raise Violation("page_is_slice", "%s: %s sorted by %s, reverse=True: page 2 of 2 is %s, the slice of the full result is %s"
+                                            % (where, desc, f, p2, fullr[2:4]), sig="page_slice_reverse:" + f)
             # ---- grouping
             gfields = [f for f, ok in (("so", have_so), ("sp", have_sp), ("n", have_n), ("k", True)) if ok]
             for f in gfields:
